@@ -211,4 +211,59 @@ example : exIdxs.all (validResample exRows.length) = true := by decide +kernel
 
 end Src
 
+/-! ### 7. NaN handling and entry-wise independence (control features, several metrics) -/
+
+/-- what the code does with a group that is absent from some resamples: `by_group_ci` (and everything when control
+    features are present) goes through `np.nanquantile`, i.e. the quantile of the values of the resamples in which the
+    group occurs; only a group absent from EVERY resample gives NaN … -/
+theorem nan_skipped_in_frames (xs : List XR) (q : Rat) :
+    quantileXR true xs q = quantileXR true (xs.filter (fun x => !isNaN x)) q ∧
+    ((∀ x ∈ xs, x = .nan) → quantileXR true xs q = some .nan) ∧
+    (∀ l : List Rat, l ≠ [] → finOnly (xs.filter (fun x => !isNaN x)) = some l →
+      quantileXR true xs q = some (.fin (quantileLinear l q))) := by
+  refine ⟨?_, ?_, ?_⟩
+  · simp [quantileXR, quantileSkip, List.filter_filter]
+  · intro h
+    have : xs.filter (fun x => !isNaN x) = [] := by
+      rw [List.filter_eq_nil_iff]; intro x hx; rw [h x hx]; simp [isNaN]
+    simp [quantileXR, quantileSkip, this]
+  · intro l hne hf
+    have hl : (xs.filter (fun x => !isNaN x)) ≠ [] := by
+      intro h0; rw [h0] at hf; simp [finOnly] at hf; exact hne hf
+    simp [quantileXR, quantileSkip, hf, hl]
+
+/-- … whereas the Series path (`overall_ci` and the aggregates without control features) uses `np.quantile`:
+    one NaN resample value (e.g. a 0/0 ratio in one resample) makes the entry NaN at every quantile -/
+theorem nan_propagates_in_series (xs : List XR) (h : XR.nan ∈ xs) (q : Rat) : quantileXR false xs q = some .nan := by
+  have hne : xs.isEmpty = false := by cases xs <;> simp_all
+  have hany : xs.any isNaN = true := List.any_eq_true.mpr ⟨.nan, h, rfl⟩
+  simp [quantileXR, quantileProp, hne, hany]
+
+/-- the per-level computation is the resampled frame filtered by control level: picking the restricted positions
+    from the rows of level L gives the level-L rows of the resample, in drawing order -/
+theorem level_resample_is_filtered_resample (L : Nat) (tr : List TRow) (idx : List Nat) (h : ∀ i ∈ idx, i < tr.length) :
+    pick (levelRows L tr) (restrict L tr idx) = some (levelRows L (idx.filterMap (fun i => tr[i]?))) :=
+  pick_restrict L tr idx h
+
+/-- no cross-talk between control levels: changing rows of OTHER levels (labels, predictions, weights, groups) does
+    not change any `*_ci` entry of level L -/
+theorem no_cross_talk_between_levels (L : Nat) (m : BMetric) (tr1 tr2 : List TRow)
+    (htags : tr1.map (fun p => p.1) = tr2.map (fun p => p.1))
+    (hrows : ∀ (i : Nat) (p q : TRow), tr1[i]? = some p → tr2[i]? = some q → p.1 = L → p.2 = q.2)
+    (idxs : List (List Nat)) (qs : List Rat) : ciAt L m tr1 idxs qs = ciAt L m tr2 idxs qs := by
+  unfold ciAt
+  rw [levelRows_congr L tr1 tr2 htags hrows]
+  congr 1
+  exact List.map_congr_left (fun idx _ => restrict_congr L tr1 tr2 htags idx)
+
+/-- no cross-talk between metrics / levels of one frame: entry (i, j) of the frame's CI table is the CI of metric i at
+    level j alone — adding, removing or changing other metrics of the dict or other levels does not change it -/
+theorem frame_entrywise (ms : List BMetric) (levels : List Nat) (tr : List TRow) (idxs : List (List Nat)) (qs : List Rat)
+    (i j : Nat) (hi : i < ms.length) (hj : j < levels.length) :
+    ((ciFrame ms levels tr idxs qs)[i]?).bind (·[j]?) = some (ciAt levels[j] ms[i] tr idxs qs) := by
+  simp [ciFrame, hi, hj]
+
+example : ciAt 1 (.w (.sel 1)) [(0, ⟨0, 1, 1, 1, 1⟩), (1, ⟨0, 0, 1, 1, 1⟩), (1, ⟨1, 1, 0, 0, 1⟩)] [[2, 0, 1], [1, 1, 0]] [1/2] =
+    ci true (.w (.sel 1)) [⟨0, 0, 1, 1, 1⟩, ⟨1, 1, 0, 0, 1⟩] [[1, 0], [0, 0]] [1/2] := by decide +kernel
+
 end C18
